@@ -12,9 +12,11 @@ def generate(tier, seed):
     lines = []
     n = [0]
 
-    def h(key, raw):
+    def h(key, raw, dbg=None):
         n[0] += 1
-        lines.append("h c%d key=%s raw=%s" % (n[0], bytes(key).hex() or "-", bytes(raw).hex() or "-"))
+        if dbg is None:
+            dbg = rng.below(2)
+        lines.append("h c%d key=%s raw=%s dbg=%d" % (n[0], bytes(key).hex() or "-", bytes(raw).hex() or "-", dbg))
 
     valid_solar = [3, 0] + [0x37, 0x05, 0x10, 0x00, 0x20, 0x00, 0x30, 0x00, 0x00, 0x01]
     keys = [rng.bytes(16), rng.bytes(24), rng.bytes(32), [0] * 16, [0xFF] * 32]
@@ -39,6 +41,10 @@ def generate(tier, seed):
             if L > 4:
                 r[4] = 1
             h(rng.bytes(kl), r)
+    # empty / nil key with and without debug logging, every payload length around the header
+    for L in (0, 8, 9, 10, 24, 40):
+        for dbg in (0, 1):
+            h([], rng.bytes(L), dbg)
     # nonces: boundaries (counter carry cannot reach the nonce bytes, which are the high bytes of the big-endian counter)
     for nonce in [0, 1, 0xFF, 0x100, 0xFFFE, 0xFFFF, 0x7FFF, 0x8000] + [rng.below(65536) for _ in range(20 if tier == "quick" else 200)]:
         r = rng.bytes(8 + rng.below(50) + 1)
